@@ -166,10 +166,27 @@ def run_prop(prop):
     exp = json.load(open(expected_path())) if os.path.exists(expected_path()) else {}
     entries = {e['id']: e for e in load_entries()}
     jobs, want = [], {}
+    # benign variants relevant to this property: those written for it, the hand-written
+    # ones, and (up to 12, in a fixed order) others that touch a file the property is anchored in
+    anchors = set()
+    for l in open(os.path.join(VERIF, 'properties.jsonl')):
+        o = json.loads(l)
+        if o['id'] == prop:
+            anchors = set(o.get('anchors', {}).get('files', []))
+    others = 0
     for vid, x in sorted(exp.items()):
         if vid not in entries:
             continue
-        if x['kind'] == 'benign' or prop in x['detected_by']:
+        take = prop in x['detected_by'] and x['kind'] != 'benign'
+        if x['kind'] == 'benign':
+            name = vid.split(':', 1)[1]
+            own = name.startswith(prop + '-') or not re.match(r'^C\d\d-', name)
+            if own:
+                take = True
+            elif 'patch' in entries[vid] and anchors & set(patched_files(entries[vid]['patch'])) and others < 12:
+                take = True
+                others += 1
+        if take:
             jobs.append((entries[vid], [prop]))
             want[vid] = x
     rs = par(jobs)
